@@ -78,6 +78,7 @@ type ThreadSpec struct {
 	Parent    int    // spawning thread (0 = setup), event index of the go statement in the parent path
 	EnvCancel string // environment thread: cancels the named context at any moment, or never
 	After     []string // SpawnAfter: first step only after these threads (and their goroutines) first blocked / finished
+	AfterDone []string // SpawnAfterDone: first step only after these threads have returned
 	Paths     []*ThreadPath
 }
 
@@ -116,6 +117,7 @@ type ConcState struct {
 	incomplete   bool
 	readCache    map[string]Value
 	refMu        sync.Mutex
+	waitCnt      map[string]int // Cond.Wait sites passed on the current path (retry-loop bound)
 	pcMark       pcMarkT // path-condition mark at the start of the thread being explored
 }
 
@@ -391,6 +393,7 @@ func (ex *Exec) exploreThread(t int) {
 		c.heldLocks = nil
 		c.readCache = map[string]Value{}
 		c.pubDone = map[*Object]bool{}
+		c.waitCnt = map[string]int{}
 		ex.forkCnt = map[ssa.Instruction]int{}
 		ex.classes = nil
 		ex.addEvent(&Event{Kind: "begin"})
@@ -473,6 +476,9 @@ func (ex *Exec) addEvent(e *Event) *Event {
 	}
 	e.Held = append([]string{}, c.heldLocks...)
 	c.cur.Events = append(c.cur.Events, e)
+	if len(c.cur.Events) > 20000 {
+		panic(unsupported("a thread path with more than 20000 events (unbounded loop?)"))
+	}
 	return e
 }
 
@@ -1069,6 +1075,19 @@ func (ex *Exec) concCond(p *Ptr, op string) {
 		if c.mode == "final" {
 			panic(goBlocked{"Cond.Wait in the quiescent phase"})
 		}
+		// the same Wait site passed more often than the unwinding bound on one path: retry loop
+		if c.waitCnt == nil {
+			c.waitCnt = map[string]int{}
+		}
+		c.waitCnt[ex.curPos()]++
+		if c.waitCnt[ex.curPos()] > ex.h.Unwind {
+			if ex.h.Opts["unwindcut"] == "1" {
+				ex.sess.res.UnwindCuts++
+				panic(pathEnd{"unwinding bound reached (cut)"})
+			}
+			ex.sess.UnwindFailure(ex.curPos())
+			panic(pathEnd{"unwinding bound reached"})
+		}
 		lp := ex.condL(p)
 		lloc := "lock:" + ex.locKey(lp)
 		// ticket is taken, then L is released (order of sync.Cond.Wait)
@@ -1377,10 +1396,20 @@ func (ex *Exec) composeAndCheck() {
 	prefixes := [][]*ThreadPath{{}}
 	for t := 1; t <= nThreads; t++ {
 		var next [][]*ThreadPath
+		tooMany := false
 		for _, acc := range prefixes {
-			for _, p := range options(t, acc) {
+			opts := options(t, acc)
+			if len(next)+len(opts) > 50*ex.h.MaxPaths {
+				tooMany = true
+				break
+			}
+			for _, p := range opts {
 				next = append(next, append(append([]*ThreadPath{}, acc...), p))
 			}
+		}
+		if tooMany {
+			res.Inconclusive = append(res.Inconclusive, fmt.Sprintf("%s: more than %d thread-path prefixes at thread %d: budget exceeded", ex.h.Name, 50*ex.h.MaxPaths, t))
+			return
 		}
 		if prefixPrune && t >= 2 && t < nThreads && len(next) > 1 {
 			unchosen := map[int]bool{}
@@ -1758,6 +1787,25 @@ func (ex *Exec) checkCombo(combo []*ThreadPath, final *ThreadPath, finalPC []*Te
 			}
 		}
 	}
+	// SpawnAfterDone: the thread's first event follows the last event of every listed thread, which
+	// must have returned (a listed thread that ends blocked makes the combination infeasible)
+	for t, p := range combo {
+		if p == nil || len(p.Events) == 0 {
+			continue
+		}
+		for _, an := range c.threads[t+1].AfterDone {
+			for u, q := range combo {
+				if q == nil || c.threads[u+1].Name != an {
+					continue
+				}
+				if q.End != "done" || len(q.Events) == 0 {
+					assertf("false")
+					continue
+				}
+				assertf("%s", lt(q.Events[len(q.Events)-1], p.Events[0]))
+			}
+		}
+	}
 	// partial mode: a ghost "begin" instant gb<u> for every thread u not chosen yet.  Whatever u does
 	// happens after gb<u>; gb<u> follows the go statement of a chosen parent (or the parent's ghost)
 	// and, for SpawnAfter threads, the first blocking event of every chosen listed thread (the ghost
@@ -1781,6 +1829,23 @@ func (ex *Exec) checkCombo(combo []*ThreadPath, final *ThreadPath, finalPC []*Te
 					for _, e := range pp.Events {
 						if e.Kind == "go" && e.Aux == fmt.Sprint(u) {
 							assertf("(< %s gb%d)", ex.clk(e), u)
+						}
+					}
+				}
+			}
+			for _, an := range spec.AfterDone {
+				for v := 1; v <= nUser; v++ {
+					if c.threads[v].Name != an {
+						continue
+					}
+					if partial[v] {
+						assertf("(< gb%d gb%d)", v, u)
+					} else if v-1 < len(combo) && combo[v-1] != nil && len(combo[v-1].Events) > 0 {
+						q := combo[v-1]
+						if q.End != "done" {
+							assertf("false")
+						} else {
+							assertf("(< %s gb%d)", ex.clk(q.Events[len(q.Events)-1]), u)
 						}
 					}
 				}
